@@ -107,14 +107,17 @@ CHECKS = {
     design_ref="DESIGN.md §1 C01/C02/C05",
     note="Same conditions and exclusions as C01: the io_uring/polling drivers themselves (queue overflow, bursts, readiness order) are outside."),
  "C05": dict(
-    engine="kani",
+    engine="kani + mirsym",
     technique="bounded model checking of Proactor::cancel/cancel_token/register_cancel, cancel.rs and key.rs (Kani/CBMC), harness = driver "
               "via __verif hook",
     category="proof",
     text="Proof within bounds, above the driver: cancelling a pending operation returns nothing and fabricates no result; cancelling after "
          "completion yields the genuine result; a token cancels only its own operation, issues at most one cancellation, none after "
          "completion or after the operation is gone, never keeps it alive; the neighbour operation is untouched and the genuine result "
-         "is never overwritten.",
+         "is never overwritten. Runtime level (MIR of compio-runtime's Submit future, Proactor summarised by the contract above): the "
+         "operation is submitted exactly once on the first poll; while pending the future keeps exactly the key the driver returned; "
+         "a cancel token in the context is registered with that key once; dropping the future while an operation is submitted calls "
+         "Proactor::cancel exactly once with the current key, and never before submission or after completion.",
     design_ref="DESIGN.md §1 C01/C02/C05",
     note="Promptness (the OS actually interrupting the operation) and the runtime-level routes (future drop, timeout combinators in "
          "compio-runtime) are outside; same conditions as C01."),
